@@ -23,7 +23,7 @@ R6  ownership: every write to the three bookkeeping features in the function
 """
 import ast
 
-from ..astutil import oriented, flag_values
+from ..astutil import oriented, flag_values, call_arg
 from ..astutil import (text, access_path, calls_in, func_params, stmts_of, is_const, const_value, method_call, range_bounds,
                        store_targets, fold)
 from ..loader import where, AnalysisError
@@ -82,6 +82,8 @@ def r7_comparator_class(ctx, repo):
     doms = [c for c in repo.subclasses("Dominance")] if repo.has_cls("Dominance") else []
     bad = unknown = None
     nwrites = 0
+    ncalls = 0
+    owners = {}
     for k in [sel] + repo.subclasses("Selector"):
         for mname, m in k.methods.items():
             me = func_params(m)[0] if func_params(m) else None
@@ -105,26 +107,87 @@ def r7_comparator_class(ctx, repo):
                     if v.func.id != "ParetoDominance":
                         bad = bad or (k, st, "%s sets the ranking comparator to %s(...)" % (C, v.func.id))
                 elif isinstance(v, ast.Call) and isinstance(v.func, ast.Name) and v.func.id in mparams:
-                    # a comparator class chosen by the caller: which classes of the package does this call accept?
-                    for d in doms:
-                        di = repo.find_method(d, "__init__")
-                        ok = arity_ok(v, di[1]) if di else (not v.args and not v.keywords)
-                        if ok and d.name != "ParetoDominance":
-                            bad = bad or (k, st, "%s builds the ranking comparator as %s: constructed with %s=%s it ranks with %s, which is not Pareto dominance "
-                                          "(it never calls two equal cost vectors incomparable), so the front numbers are not the Pareto ranks" % (C, text(v), v.func.id, d.name, d.name))
-                        elif ok is None:
-                            unknown = unknown or (k, st, "%s: call %s not resolvable" % (C, text(v)))
+                    # a comparator class chosen by the caller.  A caller who names another relation for the RANKING has asked
+                    # for it; what the property is about is what the package does when nobody asks: the default of the
+                    # parameter, what the package's own constructions pass, and that the choice is a choice of the ranking
+                    # relation only (one parameter that also configures another comparator of the object leaks that
+                    # configuration into the ranks)
+                    pname = v.func.id
+                    ppos = mparams.index(pname)
+                    nd = len(m.args.defaults)
+                    allp = [a_.arg for a_ in m.args.args]
+                    di_ = allp.index(pname) - (len(allp) - nd)
+                    default = m.args.defaults[di_] if 0 <= di_ < nd else None
+                    if default is None:
+                        unknown = unknown or (k, st, "%s: the comparator class `%s` has no default" % (C, pname))
+                    elif access_path(default) != "ParetoDominance":
+                        bad = bad or (k, st, "%s builds the ranking comparator as %s and the default of `%s` is %s, not ParetoDominance" % (C, text(v), pname, text(default)))
+                    # other roles of the same object / the same choice in this method
+                    shared = [s2 for s2 in stmts_of(m) if isinstance(s2, ast.Assign) and s2 is not st and any(
+                        (access_path(t) or "").startswith(me + ".") and access_path(t) != "%s.%s" % (me, attr) for t in s2.targets)
+                        and (any(isinstance(n_, ast.Name) and n_.id == pname for n_ in ast.walk(s2.value)) or
+                             any(access_path(n_) == "%s.%s" % (me, attr) for n_ in ast.walk(s2.value)))]
+                    same_stmt = [t for t in st.targets if access_path(t) != "%s.%s" % (me, attr)]
+                    if shared or same_stmt:
+                        other = text(same_stmt[0]) if same_stmt else text(shared[0].targets[0])
+                        for d in doms:
+                            di = repo.find_method(d, "__init__")
+                            ok = arity_ok(v, di[1]) if di else (not v.args and not v.keywords)
+                            if ok and d.name != "ParetoDominance":
+                                bad = bad or (k, st, "%s builds the ranking comparator as %s and the same choice also configures %s: constructed with %s=%s it ranks with %s, "
+                                              "which is not Pareto dominance (it never calls two equal cost vectors incomparable), so the front numbers are not the Pareto ranks"
+                                              % (C, text(v), other, pname, d.name, d.name))
+                            elif ok is None:
+                                unknown = unknown or (k, st, "%s: call %s not resolvable" % (C, text(v)))
+                    # what the package itself passes
+                    if mname == "__init__":
+                        holders = [k] + [c_ for c_ in repo.subclasses(k.name) if "__init__" not in c_.methods
+                                         and (repo.find_method(c_, "__init__") or (None, None))[1] is m]
+                        hnames = {c_.name for c_ in holders}
+                        for mod_ in repo.modules.values():
+                            for c_ in [x for x in ast.walk(mod_.tree) if isinstance(x, ast.Call)]:
+                                fpath = access_path(c_.func) or ""
+                                is_ctor = isinstance(c_.func, ast.Name) and c_.func.id in hnames
+                                is_super = fpath.endswith(".__init__") and (fpath.startswith("super()") or fpath.split(".")[0] == k.name) \
+                                    or (isinstance(c_.func, ast.Attribute) and c_.func.attr == "__init__" and isinstance(c_.func.value, ast.Call)
+                                        and access_path(c_.func.value.func) == "super")
+                                if is_super:
+                                    # only super-calls written inside a subclass of k whose next __init__ in the MRO is m
+                                    if mod_.name not in owners:
+                                        owners[mod_.name] = {id(n_): c2 for c2 in mod_.classes.values() for f_ in c2.methods.values() for n_ in ast.walk(f_) if isinstance(n_, ast.Call)}
+                                    owner = owners[mod_.name].get(id(c_))
+                                    if owner is None or owner is k or k not in repo.mro(owner):
+                                        continue
+                                    nxt = next((c3.methods["__init__"] for c3 in repo.mro(owner)[1:] if "__init__" in c3.methods), None)
+                                    if nxt is not m:
+                                        continue
+                                    pos_shift = 1 if fpath.split(".")[0] == k.name else 0
+                                elif is_ctor:
+                                    pos_shift = 0
+                                else:
+                                    continue
+                                a_ = call_arg(c_, ppos + pos_shift, pname)
+                                ncalls += 1
+                                if a_ is None:
+                                    continue
+                                if access_path(a_) == "ParetoDominance":
+                                    continue
+                                if isinstance(a_, ast.Name) and repo.has_cls(a_.id):
+                                    bad = bad or (mod_, c_, "%s constructs %s with %s=%s: the package itself ranks with %s, which is not Pareto dominance"
+                                                  % (mod_.name, k.name, pname, a_.id, a_.id))
+                                else:
+                                    unknown = unknown or (mod_, c_, "%s passes %s=%s to %s: the ranking comparator is chosen at run time" % (mod_.name, pname, text(a_), k.name))
                 else:
                     unknown = unknown or (k, st, "%s assigns %s to the ranking comparator" % (C, text(v)))
     if bad:
-        ctx.violated("R7", "Selector(%s)" % attr, where(bad[0].module, bad[1]), bad[2])
+        ctx.violated("R7", "Selector(%s)" % attr, where(getattr(bad[0], "module", bad[0]), bad[1]), bad[2])
     elif unknown:
-        ctx.inconclusive("R7", "Selector(%s)" % attr, where(unknown[0].module, unknown[1]), unknown[2])
+        ctx.inconclusive("R7", "Selector(%s)" % attr, where(getattr(unknown[0], "module", unknown[0]), unknown[1]), unknown[2])
     elif nwrites == 0:
         ctx.inconclusive("R7", "Selector(%s)" % attr, where(sel.module, sel.node), "the ranking comparator is never assigned")
     else:
-        ctx.holds("R7", "Selector(%s)" % attr, where(sel.module, sel.node), "every assignment of the ranking comparator (%d) yields a ParetoDominance instance for every comparator class of the package "
-                  "(other classes of the package cannot be constructed by these calls)" % nwrites)
+        ctx.holds("R7", "Selector(%s)" % attr, where(sel.module, sel.node), "every assignment of the ranking comparator (%d) yields a ParetoDominance instance unless a caller names another relation for the ranking alone: "
+                  "the default is ParetoDominance, the package's own %d construction(s) leave it there, and no other comparator of the object is configured by the same choice" % (nwrites, ncalls))
 
 
 def r8_lookup(ctx, repo):
